@@ -167,7 +167,6 @@ theorem decDigits_foldl (k v acc : Nat) (hv : v < 10 ^ (k + 1)) :
     have := (digit_char_table ⟨v, by simpa using hv⟩).2
     simp only at this
     simp only [decDigits, List.foldl_cons, List.foldl_nil, this]
-    simp
   | succ k ih =>
     have hd : v / 10 ^ (k + 1) < 10 := div_lt_ten hv
     have := (digit_char_table ⟨v / 10 ^ (k + 1), hd⟩).2
